@@ -6,7 +6,7 @@ from __future__ import annotations
 import ast
 import re
 
-from ..astutil import call_attr, calls_in, guard_facts, unparse, walk_local
+from ..astutil import dispatch_tables, call_attr, calls_in, guard_facts, unparse, walk_local
 from ..cfg import CFG
 from ..dataflow import resolved_text
 from ..report import Finding, Report
@@ -216,12 +216,12 @@ def check_tables(idx: Index, rep: Report) -> None:
     for fn, want in table.items():
         f = idx.func(OPS, fn)
         got: dict[str, str] = {}
-        for m in [n for n in walk_local(f.node) if isinstance(n, ast.Match)]:
-            for c in m.cases:
-                if isinstance(c.pattern, ast.MatchValue) and unparse(c.pattern.value).startswith("VarIRConstruct."):
-                    rets = [s for s in c.body if isinstance(s, ast.Return)]
+        for _subj, tbl_, _dflt, _n in dispatch_tables(f.node):  # a `match` or an if-chain on the construct kind
+            for key_, body_ in tbl_.items():
+                if key_.startswith("VarIRConstruct."):
+                    rets = [s for s in body_ if isinstance(s, ast.Return)]
                     if rets:
-                        got[unparse(c.pattern.value).split(".")[1]] = unparse(rets[0].value)
+                        got[key_.split(".")[1]] = unparse(rets[0].value)
         for k in KINDS:
             inst = f"{fn}:{k}"
             if got.get(k) == want(k):
